@@ -428,6 +428,8 @@ Proof.
     cbn [s_acct]. eapply wf2_run_op; eauto.
   - destruct (negb (s_deployed st)); [exact W2|]. destruct (do_check_auth _ _ _ _ _ _); exact W2.
   - destruct (negb (s_deployed st)); [exact W2|]. destruct (do_check_auth _ _ _ _ _ _); exact W2.
+  - destruct (negb (s_deployed st)); [exact W2|]. destruct (do_check_auth _ _ _ _ _ _); [|exact W2].
+    destruct ((1 <=? t) && (t <=? nsig)); exact W2.
 Qed.
 
 Lemma wf2_run c cs : forall st, swf st -> wf2 c (s_acct st) -> wf2 c (s_acct (run c st cs)).
